@@ -88,7 +88,10 @@ def do_copy_action(world, shared, act):
         src = shared["values"][act["i"] % len(shared["values"])]
         res = protect_via_deepcopy(src)
     elif kind == "deepcopy_value":
-        src = [shared["insts"][act["i"] % len(shared["insts"])], shared["values"][act["i"] % len(shared["values"])]]
+        # instances nested in plain containers (modules only occur *inside* spec instances here: a bare
+        # module in a plain list is not copyable by copy.deepcopy and is none of the library's business)
+        n = len(shared["insts"])
+        src = [shared["insts"][act["i"] % n], {"k": [shared["insts"][(act["i"] + 1) % n]]}]
         res = copy.deepcopy(src)
     elif kind == "with_payload":
         src = shared["insts"][act["i"] % len(shared["insts"])]
